@@ -1250,8 +1250,17 @@ func genExpr(out *bufio.Writer, rng *rand.Rand, count int) int {
 				mode = "#"
 			}
 			bo := operand{mode: mode, expr: []etok{{'n', "0"}}}
-			fitems = append(fitems, item{kind: 'F', name: ctr, expr: cnt,
-				body: []item{{kind: 'I', op: "dat", a: operand{mode: mode, expr: []etok{{'t', ctr}}}, b: &bo}}})
+			body := []item{{kind: 'I', op: "dat", a: operand{mode: mode, expr: []etok{{'t', ctr}}}, b: &bo}}
+			if rng.Intn(4) == 0 {
+				// an assertion inside the block is an assertion: a false one rejects the program
+				// (when the block is emitted at least once)
+				ae := &exprEnv{rng: rng, names: small}
+				body = append(body, item{kind: 'A', expr: ae.expr(1)})
+				if rng.Intn(2) == 0 {
+					body[len(body)-1].expr = []etok{{'n', []string{"0", "1", "2"}[rng.Intn(3)]}, {'o', "-"}, {'n', []string{"0", "1", "2"}[rng.Intn(3)]}}
+				}
+			}
+			fitems = append(fitems, item{kind: 'F', name: ctr, expr: cnt, body: body})
 			cfg.Length = 200
 			if cfg.CoreSize < 1000 {
 				cfg.CoreSize, cfg.ReadLimit, cfg.WriteLimit = 8000, 8000, 8000
